@@ -1,5 +1,5 @@
 SPECIFICATION Spec
-CONSTANTS NG = 3 Keys = {1} Rounds = 2 Modes = {"w", "r"} WRels = {"unlock"} RRels = {"runlock"} PlainDelete = FALSE Revalidate = FALSE SafeDelR = FALSE
-INVARIANTS Contract HoldsCurrent
+CONSTANTS NG = 3 Keys = {1} Rounds = 1 Modes = {"w", "r"} WRels = {"unlock", "deleteunlock"} RRels = {"runlock", "deleterunlock"} PlainDelete = FALSE Repaired = TRUE
+INVARIANTS Contract HoldsCurrent RWInv
 PROPERTY AllFinish
 CHECK_DEADLOCK FALSE
